@@ -63,6 +63,20 @@ fn generate_run(prop: &str, verif_seed: u64, index: u64, log: bool) -> ThreadRes
     let hash_key = mix(run_seed, 0x4841_5348, 1);
     let prop = prop.to_string();
     exec::on_run_thread(hash_key, move || {
+        if index >= props::E_BASE {
+            // an enumerated case: nothing is drawn
+            let mut oracle = props::oracle_for(&prop);
+            let (init, events) = match props::enumerated_case(&prop, index - props::E_BASE, hash_key) {
+                Some(c) => c,
+                None => {
+                    let init = props::plan(&prop, &mut Rng::new(run_seed), hash_key).init;
+                    (init, vec![])
+                }
+            };
+            let recs: Vec<ev::Rec> = events.into_iter().map(|(e, f)| ev::Rec { t_ms: 0, ev: e, fault: f, result: String::new() }).collect();
+            let outcome = run::run_replay(&init, &recs, oracle.as_mut(), &RunOpts { log });
+            return GenRun { outcome, init };
+        }
         let mut rng = Rng::new(run_seed);
         let plan = props::plan(&prop, &mut rng, hash_key);
         let mut oracle = props::oracle_for(&prop);
@@ -191,16 +205,20 @@ fn worker(args: &[String]) -> i32 {
     let mut states: HashSet<u64> = HashSet::new();
     let mut unmatched_classes: HashSet<(String, String, Vec<String>)> = HashSet::new();
     let cur_path = format!("{outdir}/w{w}.cur");
-    let mut index = w;
+    // seeded runs first, then this worker's share of the enumerated cases
+    let mut todo: Vec<u64> = (0..n).filter(|i| i % nw == w).collect();
+    todo.extend(props::enumerated_indices(prop, tier).into_iter().enumerate().filter(|(j, _)| *j as u64 % nw == w).map(|(_, i)| i));
+    let mut pos = 0usize;
     let state_cap = 1_500_000usize;
     let max_violations: usize = std::env::var("VERIF_MAX_VIOLATIONS").ok().and_then(|s| s.parse().ok()).unwrap_or(6);
-    while index < n {
+    while pos < todo.len() {
+        let index = todo[pos];
+        pos += 1;
         let _ = std::fs::write(&cur_path, index.to_string());
         let g = match generate_run(prop, verif_seed, index, log) {
             ThreadResult::Done(g) => g,
             ThreadResult::Panicked(p) => {
                 out.harness_errors.push(format!("run {index}: harness panic: {p}"));
-                index += nw;
                 continue;
             }
             ThreadResult::Hung => {
@@ -211,7 +229,6 @@ fn worker(args: &[String]) -> i32 {
                 if out.hangs.len() >= 3 {
                     break;
                 }
-                index += nw;
                 continue;
             }
         };
@@ -310,7 +327,6 @@ fn worker(args: &[String]) -> i32 {
                 break;
             }
         }
-        index += nw;
     }
     out.wall_s = t0.elapsed().as_secs_f64();
     write_u64s(&format!("{outdir}/w{w}.cases"), &cases);
@@ -335,7 +351,12 @@ fn check(args: &[String]) -> i32 {
     let verif_seed: u64 = std::env::var("VERIF_SEED").ok().and_then(|s| s.parse().ok()).unwrap_or(1);
     let n = props::runs_for(&prop, &tier);
     let nw: u64 = std::env::var("VERIF_WORKERS").ok().and_then(|s| s.parse().ok()).unwrap_or(16).max(1);
-    println!("icsim check property={prop} tier={tier} VERIF_SEED={verif_seed} runs={n} workers={nw}");
+    let n_enum = props::enumerated_indices(&prop, &tier).len();
+    if n_enum > 0 {
+        println!("icsim check property={prop} tier={tier} VERIF_SEED={verif_seed} runs={n} enumerated_cases={n_enum} workers={nw}");
+    } else {
+        println!("icsim check property={prop} tier={tier} VERIF_SEED={verif_seed} runs={n} workers={nw}");
+    }
     let t0 = Instant::now();
     let outdir = format!("{}/{prop}-{tier}-{}", work_dir(), std::process::id());
     let _ = std::fs::remove_dir_all(&outdir);
@@ -539,6 +560,7 @@ fn check(args: &[String]) -> i32 {
                 "stub": ["network between sessions: in-process FIFO of byte batches", "byte store / xlsx disk: in-memory", "clock: mock_time", "entropy: interposed getrandom", "user: workload generator"],
             },
             "workers": nw,
+            "enumerated_cases": n_enum,
             "watchdog_trips_decided_by_rerun_alone_and_clean": slow_runs_ok,
         },
         "assumptions": [
